@@ -389,8 +389,10 @@ def specs(tier):
         # a name that already looks like a de-collision result (a_2) next to two names that collide
         if tier == "quick":
             suffix_lens = [(3, 1, 1), (1, 1, 3)] if k in ("enum_members", "operation_methods") else [(3, 1, 1)]
+            if k == "schema_classes_modules":
+                suffix_lens += [(2, 1, 1), (1, 1, 2)]  # class names are de-collided without a separator: A, A -> A, A2 next to a2
         else:
-            suffix_lens = [(3, 1, 1), (1, 3, 1), (1, 1, 3), (3, 2, 1), (3, 1, 2), (4, 1, 1), (1, 1, 4)]
+            suffix_lens = [(3, 1, 1), (1, 3, 1), (1, 1, 3), (3, 2, 1), (3, 1, 2), (4, 1, 1), (1, 1, 4), (2, 1, 1), (1, 2, 1), (1, 1, 2)]
         for lens in suffix_lens:
             out.append((MOD, "mk_multi", (k, lens, "suffix")))
     return out
